@@ -5,13 +5,20 @@
 
   * bridges (`getTokenIDAndSubject_eq`, …, `Userinfo_eq`, `Introspect_eq`, `Revoke_eq`, `LegacyRevocation_eq`): each regenerated function
     IS its hand-readable reference (`resolve`, `refUserinfo`, `refIntrospect`, `refRevoke`) - both routers denote the same function;
-  * `honoured_implies_live`        — whatever is honoured (userinfo claims, active:true, accepted exchange subject, refresh grant) is a
-                                     token the storage knows, unexpired, unrevoked - for ANY oracle (any plaintext, any parser);
+  * `honoured_visible` / `honoured_implies_live` — whatever is honoured (userinfo claims, active:true, accepted exchange subject, refresh
+                                     grant) is a token the storage knows, unexpired, unrevoked, and shows to calls made under the issuer of the
+                                     request - for ANY oracle (any plaintext, any parser);
   * `dead_step` / `revocation_sticks` — deadness of access AND refresh tokens is an invariant of every operation: over ALL histories;
-  * `revoke_kills_at` / `revoke_kills_rt_partial` (+ witness of the full statement's failure) — revocation by the owner, for every hint;
+  * `revoke_kills_at` / `revoke_kills_rt` — revocation by the owner kills access and refresh tokens for EVERY token_type_hint (the hint is not
+                                     evaluated: a string the storage knows as a refresh token is revoked as one; RFC 7009 §2.1);
   * `foreign_revoke_refused_*`, `unknown_revoke_ok`, `inactive_discloses_nothing`;
   * `c08_issuer_bound`             — a JWT access token is honoured only at the issuer named in it (and only validly signed, unexpired),
-                                     for all issuers / hosts; `opaque_not_issuer_bound_witness` records that opaque tokens are not.
+                                     for all issuers / hosts;
+  * `c08_issuer_bound_stored`      — with a storage that keeps the tenants of a multi-issuer provider apart (records tagged with
+                                     `op.IssuerFromContext(ctx)`), a stored token - opaque or JWT access token, refresh token - is honoured only
+                                     under the issuer it was created under (`resolve_opaque_ignores_issuer` is a remark: the library's reader of
+                                     opaque tokens does not look at the issuer; the binding is the storage's part of the contract);
+  * `parseIntrospection_ok`, `parseRevocation_ok` — who may ask.
 -/
 import OidcModel.Model.ResourceFlow
 import OidcModel.Proofs.C01
@@ -22,52 +29,60 @@ open Go Hand
 
 /-! ### the storage tables -/
 
-theorem lookup_some {s : St} {id : String} {t : Tok} (h : s.lookup id = some t) : t ∈ s.toks ∧ t.id = id ∧ t.gone = false := by
+theorem lookup_some {s : St} {iss id : String} {t : Tok} (h : s.lookup iss id = some t) :
+    t ∈ s.toks ∧ t.id = id ∧ t.gone = false ∧ s.sees iss t.issuer = true := by
   unfold St.lookup at h
   have h1 := List.mem_of_find?_eq_some h
   have h2 := List.find?_some h
   simp only [Bool.and_eq_true, beq_iff_eq, Bool.not_eq_true'] at h2
-  exact ⟨h1, h2.1, h2.2⟩
+  exact ⟨h1, h2.1.1, h2.1.2, h2.2⟩
 
-theorem liveTok_some {s : St} {id : String} {t : Tok} (h : s.liveTok id = some t) : t ∈ s.toks ∧ t.id = id ∧ t.live = true := by
+theorem liveTok_some {s : St} {iss id : String} {t : Tok} (h : s.liveTok iss id = some t) :
+    t ∈ s.toks ∧ t.id = id ∧ t.live = true ∧ s.sees iss t.issuer = true := by
   unfold St.liveTok at h
-  cases hf : s.lookup id with
+  cases hf : s.lookup iss id with
   | none => simp [hf] at h
   | some t' =>
     simp [hf, Option.filter] at h
     obtain ⟨hl, rfl⟩ := h
-    exact ⟨(lookup_some hf).1, (lookup_some hf).2.1, hl⟩
+    exact ⟨(lookup_some hf).1, (lookup_some hf).2.1, hl, (lookup_some hf).2.2.2⟩
 
-theorem lookupR_some {s : St} {tok : String} {r : RTok} (h : s.lookupR tok = some r) : r ∈ s.rtoks ∧ r.token = tok ∧ r.gone = false := by
+theorem lookupR_some {s : St} {iss tok : String} {r : RTok} (h : s.lookupR iss tok = some r) :
+    r ∈ s.rtoks ∧ r.token = tok ∧ r.gone = false ∧ s.sees iss r.issuer = true := by
   unfold St.lookupR at h
   have h1 := List.mem_of_find?_eq_some h
   have h2 := List.find?_some h
   simp only [Bool.and_eq_true, beq_iff_eq, Bool.not_eq_true'] at h2
-  exact ⟨h1, h2.1, h2.2⟩
+  exact ⟨h1, h2.1.1, h2.1.2, h2.2⟩
 
-theorem liveR_some {s : St} {tok : String} {r : RTok} (h : s.liveR tok = some r) : r ∈ s.rtoks ∧ r.token = tok ∧ r.live = true := by
+theorem liveR_some {s : St} {iss tok : String} {r : RTok} (h : s.liveR iss tok = some r) :
+    r ∈ s.rtoks ∧ r.token = tok ∧ r.live = true ∧ s.sees iss r.issuer = true := by
   unfold St.liveR at h
-  cases hf : s.lookupR tok with
+  cases hf : s.lookupR iss tok with
   | none => simp [hf] at h
   | some t' =>
     simp [hf, Option.filter] at h
     obtain ⟨hl, rfl⟩ := h
-    exact ⟨(lookupR_some hf).1, (lookupR_some hf).2.1, hl⟩
+    exact ⟨(lookupR_some hf).1, (lookupR_some hf).2.1, hl, (lookupR_some hf).2.2.2⟩
+
+/-- a partitioning storage shows a call made under issuer `iss` only the records created under `iss` -/
+theorem sees_partitioned {s : St} {iss r : String} (hp : s.partitioned = true) (h : s.sees iss r = true) : r = iss := by
+  simpa [St.sees, hp] using h
 
 /-- the token is known to the storage and neither expired, revoked nor removed -/
 def Live (s : St) : Ref → Prop
   | .at id => ∃ t, t ∈ s.toks ∧ t.id = id ∧ t.live = true
   | .rt tok => ∃ r, r ∈ s.rtoks ∧ r.token = tok ∧ r.live = true
 
-theorem setUserinfo_ok {s : St} {id sub : String} {u : ResUserInfo} (h : s.SetUserinfoFromToken id sub = .ok u) :
-    ∃ t, s.liveTok id = some t ∧ u = { Subject := t.subject, tokenID := t.id } := by
+theorem setUserinfo_ok {s : St} {iss id sub : String} {u : ResUserInfo} (h : s.SetUserinfoFromToken iss id sub = .ok u) :
+    ∃ t, s.liveTok iss id = some t ∧ u = { Subject := t.subject, tokenID := t.id } := by
   unfold St.SetUserinfoFromToken at h
   split at h
   · rename_i t ht; simp at h; exact ⟨t, ht, h.symm⟩
   · simp at h
 
-theorem setIntrospection_ok {s : St} {resp r : ResIntrospection} {id sub cid : String} (h : s.SetIntrospectionFromToken resp id sub cid = .ok r) :
-    ∃ t, s.liveTok id = some t ∧ t.audience.contains cid = true ∧
+theorem setIntrospection_ok {s : St} {resp r : ResIntrospection} {iss id sub cid : String} (h : s.SetIntrospectionFromToken iss resp id sub cid = .ok r) :
+    ∃ t, s.liveTok iss id = some t ∧ t.audience.contains cid = true ∧
       r = { resp with Active := true, Subject := t.subject, ClientID := t.client, Audience := t.audience, tokenID := t.id } := by
   unfold St.SetIntrospectionFromToken at h
   split at h
@@ -168,43 +183,43 @@ def refUserinfo (now : Int) (p : ResProvider) (rq : Go.R String) : ResResp :=
     match resolve now p tok with
     | none => .httpError "access token invalid" 401
     | some (id, sub) =>
-      match p.store.SetUserinfoFromToken id sub with
+      match p.store.SetUserinfoFromToken p.ctxIssuer id sub with
       | .error err => .jsonError err 403
       | .ok info => .userinfo info
 
 theorem Userinfo_eq (now : Int) (rq : Go.R String) (p : ResProvider) : GenRes.Userinfo now rq p = refUserinfo now p rq := by
-  unfold GenRes.Userinfo refUserinfo Hand.resParseUserinfoRequest ResProvider.Storage
+  unfold GenRes.Userinfo refUserinfo Hand.resParseUserinfoRequest ResProvider.Storage View.SetUserinfoFromToken
   cases rq with
   | error e => rfl
   | ok tok =>
     simp only [getTokenIDAndSubject_eq]
     cases resolve now p tok with
     | none => simp [resolved]
-    | some pr => obtain ⟨id, sub⟩ := pr; simp only [resolved]; cases p.store.SetUserinfoFromToken id sub <;> simp
+    | some pr => obtain ⟨id, sub⟩ := pr; simp only [resolved]; cases p.store.SetUserinfoFromToken p.ctxIssuer id sub <;> simp
 
 /-- reference reading of `LegacyServer.UserInfo` -/
 def refLegacyUserInfo (now : Int) (p : ResProvider) (tok : String) : Go.R ResUserInfo :=
   match resolve now p tok with
   | none => .error "401:ErrAccessDenied"
   | some (id, sub) =>
-    match p.store.SetUserinfoFromToken id sub with
+    match p.store.SetUserinfoFromToken p.ctxIssuer id sub with
     | .error err => .error ("403:" ++ err)
     | .ok info => .ok info
 
 theorem LegacyUserInfo_eq (now : Int) (p : ResProvider) (r : ResRequest) :
     GenRes.LegacyUserInfo now ⟨p⟩ r = refLegacyUserInfo now p r.Data.AccessToken := by
-  unfold GenRes.LegacyUserInfo refLegacyUserInfo ResProvider.Storage Hand.NewResponse Hand.resNewStatusError
+  unfold GenRes.LegacyUserInfo refLegacyUserInfo ResProvider.Storage View.SetUserinfoFromToken Hand.NewResponse Hand.resNewStatusError
   simp only [getTokenIDAndSubject_eq]
   cases resolve now p r.Data.AccessToken with
   | none => simp [resolved]
-  | some pr => obtain ⟨id, sub⟩ := pr; simp only [resolved]; cases p.store.SetUserinfoFromToken id sub <;> simp
+  | some pr => obtain ⟨id, sub⟩ := pr; simp only [resolved]; cases p.store.SetUserinfoFromToken p.ctxIssuer id sub <;> simp
 
 /-- reference reading of `op.Introspect` / `LegacyServer.Introspect`: the response stays zero-valued unless the storage confirms -/
 def refIntrospect (now : Int) (p : ResProvider) (tok cid : String) : ResIntrospection :=
   match resolve now p tok with
   | none => default
   | some (id, sub) =>
-    match p.store.SetIntrospectionFromToken default id sub cid with
+    match p.store.SetIntrospectionFromToken p.ctxIssuer default id sub cid with
     | .error _ => default
     | .ok r => { r with Active := true }
 
@@ -212,7 +227,7 @@ theorem Introspect_eq (now : Int) (rq : Go.R (String × String)) (p : ResProvide
     GenRes.Introspect now rq p = match rq with
       | .error err => .httpError err 401
       | .ok (tok, cid) => .introspection (refIntrospect now p tok cid) := by
-  unfold GenRes.Introspect refIntrospect Hand.resParseTokenIntrospectionRequest ResProvider.Storage
+  unfold GenRes.Introspect refIntrospect Hand.resParseTokenIntrospectionRequest ResProvider.Storage View.SetIntrospectionFromToken
   cases rq with
   | error e => rfl
   | ok pr =>
@@ -220,20 +235,20 @@ theorem Introspect_eq (now : Int) (rq : Go.R (String × String)) (p : ResProvide
     simp only [getTokenIDAndSubject_eq]
     cases resolve now p tok with
     | none => simp [resolved]
-    | some pr => obtain ⟨id, sub⟩ := pr; simp only [resolved]; cases p.store.SetIntrospectionFromToken default id sub cid <;> simp
+    | some pr => obtain ⟨id, sub⟩ := pr; simp only [resolved]; cases p.store.SetIntrospectionFromToken p.ctxIssuer default id sub cid <;> simp
 
 theorem LegacyIntrospect_eq (now : Int) (p : ResProvider) (r : ResRequest) :
     GenRes.LegacyIntrospect now ⟨p⟩ r = match r.Data.ClientCredentials with
       | .error err => .error err
       | .ok cid => .ok (refIntrospect now p r.Data.Token cid) := by
-  unfold GenRes.LegacyIntrospect refIntrospect Hand.resAuthenticateResourceClient ResProvider.Storage Hand.NewResponse
+  unfold GenRes.LegacyIntrospect refIntrospect Hand.resAuthenticateResourceClient ResProvider.Storage View.SetIntrospectionFromToken Hand.NewResponse
   cases r.Data.ClientCredentials with
   | error e => rfl
   | ok cid =>
     simp only [getTokenIDAndSubject_eq]
     cases resolve now p r.Data.Token with
     | none => simp [resolved]
-    | some pr => obtain ⟨id, sub⟩ := pr; simp only [resolved]; cases p.store.SetIntrospectionFromToken default id sub cid <;> simp
+    | some pr => obtain ⟨id, sub⟩ := pr; simp only [resolved]; cases p.store.SetIntrospectionFromToken p.ctxIssuer default id sub cid <;> simp
 
 /-- what the revocation handlers make of the submitted string when they treat it as an ACCESS token: its id and subject if it
     decrypts / verifies, else the raw string itself, so that the storage can still find a refresh token (RFC 7009 §2.1: a wrong
@@ -243,25 +258,25 @@ def asAccess (now : Int) (p : ResProvider) (tok : String) : String × String :=
   | some (id, sub) => (id, sub)
   | none => (tok, "")
 
-/-- the (token, subject) pair handed to `Storage.RevokeToken` (error: the refresh-token lookup failed for another reason) -/
-def revokeTarget (now : Int) (p : ResProvider) (w : ResWorld) (tok hint cid : String) : Go.R (String × String) :=
-  if hint != "access_token" then
-    match w.GetRefreshTokenInfo cid tok with
-    | .ok (uid, tid) => .ok (tid, uid)
-    | .error err => if !(Hand.resErrorsIs err "ErrInvalidRefreshToken") then .error "ErrServerError" else .ok (asAccess now p tok)
-  else .ok (asAccess now p tok)
+/-- the (token, subject) pair handed to `Storage.RevokeToken` (error: the refresh-token lookup failed for another reason).  The
+    token_type_hint plays no part (RFC 7009 §2.1): a string the storage knows as a refresh token is revoked as one, anything else as the
+    access token it resolves to, else as the raw string -/
+def revokeTarget (now : Int) (p : ResProvider) (w : ResWorld) (tok cid : String) : Go.R (String × String) :=
+  match w.GetRefreshTokenInfo cid tok with
+  | .ok (uid, tid) => .ok (tid, uid)
+  | .error err => if !(Hand.resErrorsIs err "ErrInvalidRefreshToken") then .error "ErrServerError" else .ok (asAccess now p tok)
 
 /-- reference reading of both revocation handlers -/
-def refRevoke (now : Int) (p : ResProvider) (w : ResWorld) (tok hint cid : String) : ResWorld × Go.R Unit :=
-  match revokeTarget now p w tok hint cid with
+def refRevoke (now : Int) (p : ResProvider) (w : ResWorld) (tok cid : String) : ResWorld × Go.R Unit :=
+  match revokeTarget now p w tok cid with
   | .error e => (w, .error e)
   | .ok (t, sub) => w.RevokeToken t sub cid
 
 theorem Revoke_eq (now : Int) (rq : Go.R (String × String × String)) (w : ResWorld) (p : ResProvider) :
     GenRes.Revoke now rq w p = match rq with
       | .error err => Hand.resRevocationRequestError w err
-      | .ok (tok, hint, cid) =>
-        match refRevoke now p w tok hint cid with
+      | .ok (tok, _hint, cid) =>
+        match refRevoke now p w tok cid with
         | (w', .error err) => Hand.resRevocationRequestError w' err
         | (w', .ok _) => Hand.resMarshalJSON w' .empty := by
   unfold GenRes.Revoke refRevoke revokeTarget asAccess Hand.resParseTokenRevocationRequest
@@ -270,52 +285,40 @@ theorem Revoke_eq (now : Int) (rq : Go.R (String × String × String)) (w : ResW
   | ok pr =>
     obtain ⟨tok, hint, cid⟩ := pr
     simp only [getTokenIDAndSubjectForRevocation_eq]
-    by_cases hh : (hint != "access_token") = true
-    · simp only [hh, if_true]
-      cases hg : w.GetRefreshTokenInfo cid tok with
-      | error err =>
-        simp only []
-        by_cases he : (!(Hand.resErrorsIs err "ErrInvalidRefreshToken")) = true
-        · simp [he]
-        · simp only [he, if_false, if_true]
-          cases hr : resolve now p tok with
-          | none => simp only [resolved]; cases hk : w.RevokeToken tok "" cid with | mk w' r => cases r <;> simp [hk]
-          | some pr => obtain ⟨id, sub⟩ := pr; simp only [resolved]; cases hk : w.RevokeToken id sub cid with | mk w' r => cases r <;> simp [hk]
-      | ok pr =>
-        obtain ⟨uid, tid⟩ := pr
-        simp only []
-        cases hk : w.RevokeToken tid uid cid with | mk w' r => cases r <;> simp [hk]
-    · simp only [hh, if_false]
-      cases hr : resolve now p tok with
-      | none => simp only [resolved]; cases hk : w.RevokeToken tok "" cid with | mk w' r => cases r <;> simp [hk]
-      | some pr => obtain ⟨id, sub⟩ := pr; simp only [resolved]; cases hk : w.RevokeToken id sub cid with | mk w' r => cases r <;> simp [hk]
-
-theorem LegacyRevocation_eq (now : Int) (w : ResWorld) (p : ResProvider) (r : ResClientRequest) :
-    GenRes.LegacyRevocation now w ⟨p⟩ r =
-      match refRevoke now p w r.Data.Token r.Data.TokenTypeHint r.Client.id with
-      | (w', .error err) => (w', .error err)
-      | (w', .ok _) => (w', .ok .empty) := by
-  unfold GenRes.LegacyRevocation refRevoke revokeTarget asAccess Hand.resRevocationError Hand.NewResponse OPClient.GetID
-  simp only [getTokenIDAndSubjectForRevocation_eq]
-  by_cases hh : (r.Data.TokenTypeHint != "access_token") = true
-  · simp only [hh, if_true]
-    cases hg : w.GetRefreshTokenInfo r.Client.id r.Data.Token with
+    cases hg : w.GetRefreshTokenInfo cid tok with
     | error err =>
       simp only []
       by_cases he : (!(Hand.resErrorsIs err "ErrInvalidRefreshToken")) = true
       · simp [he]
       · simp only [he, if_false, if_true]
-        cases hr : resolve now p r.Data.Token with
-        | none => simp only [resolved]; cases hk : w.RevokeToken r.Data.Token "" r.Client.id with | mk w' x => cases x <;> simp [hk]
-        | some pr => obtain ⟨id, sub⟩ := pr; simp only [resolved]; cases hk : w.RevokeToken id sub r.Client.id with | mk w' x => cases x <;> simp [hk]
+        cases hr : resolve now p tok with
+        | none => simp only [resolved]; cases hk : w.RevokeToken tok "" cid with | mk w' r => cases r <;> simp [hk]
+        | some pr => obtain ⟨id, sub⟩ := pr; simp only [resolved]; cases hk : w.RevokeToken id sub cid with | mk w' r => cases r <;> simp [hk]
     | ok pr =>
       obtain ⟨uid, tid⟩ := pr
       simp only []
-      cases hk : w.RevokeToken tid uid r.Client.id with | mk w' x => cases x <;> simp [hk]
-  · simp only [hh, if_false]
-    cases hr : resolve now p r.Data.Token with
-    | none => simp only [resolved]; cases hk : w.RevokeToken r.Data.Token "" r.Client.id with | mk w' x => cases x <;> simp [hk]
-    | some pr => obtain ⟨id, sub⟩ := pr; simp only [resolved]; cases hk : w.RevokeToken id sub r.Client.id with | mk w' x => cases x <;> simp [hk]
+      cases hk : w.RevokeToken tid uid cid with | mk w' r => cases r <;> simp [hk]
+
+theorem LegacyRevocation_eq (now : Int) (w : ResWorld) (p : ResProvider) (r : ResClientRequest) :
+    GenRes.LegacyRevocation now w ⟨p⟩ r =
+      match refRevoke now p w r.Data.Token r.Client.id with
+      | (w', .error err) => (w', .error err)
+      | (w', .ok _) => (w', .ok .empty) := by
+  unfold GenRes.LegacyRevocation refRevoke revokeTarget asAccess Hand.resRevocationError Hand.NewResponse OPClient.GetID
+  simp only [getTokenIDAndSubjectForRevocation_eq]
+  cases hg : w.GetRefreshTokenInfo r.Client.id r.Data.Token with
+  | error err =>
+    simp only []
+    by_cases he : (!(Hand.resErrorsIs err "ErrInvalidRefreshToken")) = true
+    · simp [he]
+    · simp only [he, if_false, if_true]
+      cases hr : resolve now p r.Data.Token with
+      | none => simp only [resolved]; cases hk : w.RevokeToken r.Data.Token "" r.Client.id with | mk w' x => cases x <;> simp [hk]
+      | some pr => obtain ⟨id, sub⟩ := pr; simp only [resolved]; cases hk : w.RevokeToken id sub r.Client.id with | mk w' x => cases x <;> simp [hk]
+  | ok pr =>
+    obtain ⟨uid, tid⟩ := pr
+    simp only []
+    cases hk : w.RevokeToken tid uid r.Client.id with | mk w' x => cases x <;> simp [hk]
 
 /-! ### the endpoints of BOTH routers, read through the bridges -/
 
@@ -324,7 +327,7 @@ theorem userinfo_spec (rt : Router) (atp : ResATProvider) (e : Env) (s : St) (to
       match resolve e.now (provider atp e s) tok with
       | none => .refused 401
       | some (id, sub) =>
-        match s.SetUserinfoFromToken id sub with
+        match s.SetUserinfoFromToken e.issuer id sub with
         | .ok u => .claims u
         | .error _ => .refused 403 := by
   cases rt with
@@ -332,14 +335,14 @@ theorem userinfo_spec (rt : Router) (atp : ResATProvider) (e : Env) (s : St) (to
     simp only [userinfo, Userinfo_eq, refUserinfo]
     cases resolve e.now (provider atp e s) tok with
     | none => rfl
-    | some pr => obtain ⟨id, sub⟩ := pr; simp only [provider]; cases s.SetUserinfoFromToken id sub <;> rfl
+    | some pr => obtain ⟨id, sub⟩ := pr; simp only [provider]; cases s.SetUserinfoFromToken e.issuer id sub <;> rfl
   | legacy =>
     simp only [userinfo, LegacyUserInfo_eq, refLegacyUserInfo]
     cases resolve e.now (provider atp e s) tok with
     | none => simp [Go.hasPrefix]
     | some pr =>
       obtain ⟨id, sub⟩ := pr; simp only [provider]
-      cases s.SetUserinfoFromToken id sub with
+      cases s.SetUserinfoFromToken e.issuer id sub with
       | ok u => rfl
       | error err =>
         simp only [Go.hasPrefix]
@@ -357,20 +360,23 @@ theorem introspect_spec (rt : Router) (atp : ResATProvider) (e : Env) (s : St) (
 theorem revokeToken_out (w : ResWorld) (a b c : String) : (w.RevokeToken a b c).1.out = w.out := by
   unfold ResWorld.RevokeToken; rfl
 
+/-- the world a revocation request of `e` runs in: the storage, seen under the issuer of the request -/
+def worldOf (e : Env) (s : St) : ResWorld := { store := s, ctxIssuer := e.issuer }
+
 theorem revoke_spec (rt : Router) (atp : ResATProvider) (e : Env) (s : St) (caller : Option String) (hint tok : String) :
     revoke rt atp e s caller hint tok =
       match caller with
       | none => (s, .refused)
       | some c =>
-        match refRevoke e.now (provider atp e s) { store := s } tok hint c with
+        match refRevoke e.now (provider atp e s) (worldOf e s) tok c with
         | (w, .ok _) => (w.store, .ok)
         | (w, .error _) => (w.store, .refused) := by
-  have hout : ∀ c, (refRevoke e.now (provider atp e s) { store := s } tok hint c).1.out = [] := by
+  have hout : ∀ c, (refRevoke e.now (provider atp e s) (worldOf e s) tok c).1.out = [] := by
     intro c
     unfold refRevoke
     split
     · rfl
-    · rw [revokeToken_out]
+    · rw [revokeToken_out]; rfl
   cases rt with
   | provider =>
     cases caller with
@@ -378,7 +384,8 @@ theorem revoke_spec (rt : Router) (atp : ResATProvider) (e : Env) (s : St) (call
     | some c =>
       simp only [revoke, Revoke_eq, callerR, Except.map]
       have := hout c
-      cases hr : refRevoke e.now (provider atp e s) { store := s } tok hint c with
+      unfold worldOf at this ⊢
+      cases hr : refRevoke e.now (provider atp e s) { store := s, ctxIssuer := e.issuer } tok c with
       | mk w x =>
         rw [hr] at this
         cases x <;> simp_all [Hand.resRevocationRequestError, Hand.resMarshalJSON]
@@ -386,14 +393,14 @@ theorem revoke_spec (rt : Router) (atp : ResATProvider) (e : Env) (s : St) (call
     cases caller with
     | none => rfl
     | some c =>
-      simp only [revoke, LegacyRevocation_eq]
-      cases hr : refRevoke e.now (provider atp e s) { store := s } tok hint c with
+      simp only [revoke, LegacyRevocation_eq, worldOf]
+      cases hr : refRevoke e.now (provider atp e s) { store := s, ctxIssuer := e.issuer } tok c with
       | mk w x => cases x <;> simp
 
 /-- the two shapes of an introspection answer: the zero value, or the fields of a LIVE token whose audience contains the caller -/
 theorem refIntrospect_cases (now : Int) (p : ResProvider) (tok cid : String) :
     refIntrospect now p tok cid = default ∨
-      ∃ id sub t, resolve now p tok = some (id, sub) ∧ p.store.liveTok id = some t ∧ t.audience.contains cid = true ∧
+      ∃ id sub t, resolve now p tok = some (id, sub) ∧ p.store.liveTok p.ctxIssuer id = some t ∧ t.audience.contains cid = true ∧
         refIntrospect now p tok cid = { Active := true, Subject := t.subject, ClientID := t.client, Audience := t.audience, tokenID := t.id } := by
   unfold refIntrospect
   cases hr : resolve now p tok with
@@ -401,37 +408,50 @@ theorem refIntrospect_cases (now : Int) (p : ResProvider) (tok cid : String) :
   | some pr =>
     obtain ⟨id, sub⟩ := pr
     simp only []
-    cases hs : p.store.SetIntrospectionFromToken default id sub cid with
+    cases hs : p.store.SetIntrospectionFromToken p.ctxIssuer default id sub cid with
     | error err => left; rfl
     | ok r =>
       right
       obtain ⟨t, ht, ha, rfl⟩ := setIntrospection_ok hs
       exact ⟨id, sub, t, rfl, ht, ha, rfl⟩
 
-/-! ### (1) honoured ⇒ live -/
+/-! ### (1) honoured ⇒ live, and created under the issuer of the request -/
 
-/-- C08 (1): whatever is honoured - userinfo claims, active:true, an accepted exchange subject (access or refresh token), a
-    refresh grant - belongs to a token the storage knows that is neither expired, revoked nor removed; on both routers, for ANY
-    oracle behaviour (any plaintext a presented string decrypts to, any parser outcome) -/
-theorem honoured_implies_live (atp : ResATProvider) (s : St) (op : Op) (x : Ref) (h : (step atp s op).2 = some x) : Live s x := by
+/-- the issuer a request that may honour a token is addressed to -/
+def requestIssuer : Op → Option String
+  | .userinfo _ e _ => some e.issuer
+  | .introspect _ e _ _ => some e.issuer
+  | .exchange e _ _ => some e.issuer
+  | .refresh iss _ => some iss
+  | _ => none
+
+/-- the token is live and the storage shows it to calls made under issuer `iss` -/
+def VisibleLive (s : St) (iss : String) : Ref → Prop
+  | .at id => ∃ t, t ∈ s.toks ∧ t.id = id ∧ t.live = true ∧ s.sees iss t.issuer = true
+  | .rt tok => ∃ r, r ∈ s.rtoks ∧ r.token = tok ∧ r.live = true ∧ s.sees iss r.issuer = true
+
+theorem honoured_visible (atp : ResATProvider) (s : St) (op : Op) (x : Ref) (h : (step atp s op).2 = some x) :
+    ∃ iss, requestIssuer op = some iss ∧ VisibleLive s iss x := by
   cases op with
   | issue t r => simp only [step] at h; split at h <;> simp at h
   | expire y => cases y <;> simp [step] at h
   | revoke rt e c hint tok => simp [step] at h
-  | endSession a b => simp [step] at h
+  | endSession i a b => simp [step] at h
   | userinfo rt e tok =>
+    refine ⟨e.issuer, rfl, ?_⟩
     simp only [step, userinfo_spec] at h
     cases hr : resolve e.now (provider atp e s) tok with
     | none => simp [hr] at h
     | some pr =>
       obtain ⟨id, sub⟩ := pr
-      cases hs : s.SetUserinfoFromToken id sub with
+      cases hs : s.SetUserinfoFromToken e.issuer id sub with
       | error err => simp [hr, hs] at h
       | ok u =>
         simp [hr, hs] at h; subst h
         obtain ⟨t, ht, rfl⟩ := setUserinfo_ok hs
-        exact ⟨t, (liveTok_some ht).1, rfl, (liveTok_some ht).2.2⟩
+        exact ⟨t, (liveTok_some ht).1, rfl, (liveTok_some ht).2.2.1, (liveTok_some ht).2.2.2⟩
   | introspect rt e c tok =>
+    refine ⟨e.issuer, rfl, ?_⟩
     simp only [step, introspect_spec] at h
     cases c with
     | none => simp at h
@@ -441,26 +461,54 @@ theorem honoured_implies_live (atp : ResATProvider) (s : St) (op : Op) (x : Ref)
       · rw [h0] at h; have hd : (default : ResIntrospection).Active = false := rfl
         simp [hd] at h
       · rw [h1] at h; simp at h; subst h
-        exact ⟨t, (liveTok_some ht).1, rfl, (liveTok_some ht).2.2⟩
+        have ht' : s.liveTok e.issuer id = some t := ht
+        exact ⟨t, (liveTok_some ht').1, rfl, (liveTok_some ht').2.2.1, (liveTok_some ht').2.2.2⟩
   | exchange e asRefresh tok =>
+    refine ⟨e.issuer, rfl, ?_⟩
     simp only [step, exchange] at h
     split at h
     · unfold St.TokenRequestByRefreshToken at h
-      cases hl : s.liveR tok with
+      cases hl : s.liveR e.issuer tok with
       | none => simp [hl] at h
-      | some r => simp [hl] at h; subst h; exact ⟨r, (liveR_some hl).1, rfl, (liveR_some hl).2.2⟩
+      | some r => simp [hl] at h; subst h; exact ⟨r, (liveR_some hl).1, rfl, (liveR_some hl).2.2.1, (liveR_some hl).2.2.2⟩
     · split at h
       · rename_i id _ _ _
-        cases hl : s.liveTok id with
+        cases hl : s.liveTok e.issuer id with
         | none => simp [hl] at h
-        | some t => simp [hl] at h; subst h; exact ⟨t, (liveTok_some hl).1, rfl, (liveTok_some hl).2.2⟩
+        | some t => simp [hl] at h; subst h; exact ⟨t, (liveTok_some hl).1, rfl, (liveTok_some hl).2.2.1, (liveTok_some hl).2.2.2⟩
       · simp at h
-  | refresh tok =>
+  | refresh iss tok =>
+    refine ⟨iss, rfl, ?_⟩
     simp only [step] at h
     unfold St.TokenRequestByRefreshToken at h
-    cases hl : s.liveR tok with
+    cases hl : s.liveR iss tok with
     | none => simp [hl] at h
-    | some r => simp [hl] at h; subst h; exact ⟨r, (liveR_some hl).1, rfl, (liveR_some hl).2.2⟩
+    | some r => simp [hl] at h; subst h; exact ⟨r, (liveR_some hl).1, rfl, (liveR_some hl).2.2.1, (liveR_some hl).2.2.2⟩
+
+/-- C08 (1): whatever is honoured - userinfo claims, active:true, an accepted exchange subject (access or refresh token), a
+    refresh grant - belongs to a token the storage knows that is neither expired, revoked nor removed; on both routers, for ANY
+    oracle behaviour (any plaintext a presented string decrypts to, any parser outcome) -/
+theorem honoured_implies_live (atp : ResATProvider) (s : St) (op : Op) (x : Ref) (h : (step atp s op).2 = some x) : Live s x := by
+  obtain ⟨iss, _, hv⟩ := honoured_visible atp s op x h
+  cases x with
+  | «at» id => obtain ⟨t, h1, h2, h3, _⟩ := hv; exact ⟨t, h1, h2, h3⟩
+  | rt tok => obtain ⟨t, h1, h2, h3, _⟩ := hv; exact ⟨t, h1, h2, h3⟩
+
+/-- the live record of the token was created under issuer `iss` -/
+def CreatedUnder (s : St) (iss : String) : Ref → Prop
+  | .at id => ∃ t, t ∈ s.toks ∧ t.id = id ∧ t.live = true ∧ t.issuer = iss
+  | .rt tok => ∃ r, r ∈ s.rtoks ∧ r.token = tok ∧ r.live = true ∧ r.issuer = iss
+
+/-- C08 (1b): with a storage that keeps the tenants of a multi-issuer provider apart, a STORED token (opaque or JWT access token,
+    refresh token) is honoured - at userinfo, introspection, token exchange, the refresh grant, on either router - only under the issuer
+    it was created under: for all issuers, all oracles, all states -/
+theorem c08_issuer_bound_stored (atp : ResATProvider) (s : St) (op : Op) (x : Ref) (iss : String) (hp : s.partitioned = true)
+    (hi : requestIssuer op = some iss) (h : (step atp s op).2 = some x) : CreatedUnder s iss x := by
+  obtain ⟨iss', hi', hv⟩ := honoured_visible atp s op x h
+  rw [hi] at hi'; cases hi'
+  cases x with
+  | «at» id => obtain ⟨t, h1, h2, h3, h4⟩ := hv; exact ⟨t, h1, h2, h3, sees_partitioned hp h4⟩
+  | rt tok => obtain ⟨t, h1, h2, h3, h4⟩ := hv; exact ⟨t, h1, h2, h3, sees_partitioned hp h4⟩
 
 /-! ### (2) deadness is an invariant of every operation -/
 
@@ -509,7 +557,7 @@ theorem dropR_token (i : String) (r : RTok) : (dropR i r).token = r.token := by 
 theorem dropR_live (i : String) (r : RTok) (h : r.live = false) : (dropR i r).live = false := by
   unfold dropR; split <;> simp_all [RTok.live]
 
-theorem revokeToken_rewrites (s : St) (a b c : String) : Rewrites s (s.RevokeToken a b c).1 := by
+theorem revokeToken_rewrites (s : St) (i a b c : String) : Rewrites s (s.RevokeToken i a b c).1 := by
   unfold St.RevokeToken
   split
   · split
@@ -522,13 +570,13 @@ theorem revokeToken_rewrites (s : St) (a b c : String) : Rewrites s (s.RevokeTok
       · rename_i r _ _
         exact ⟨⟨killTok r.access, rfl, killTok_id _, killTok_live _⟩, ⟨dropR a, rfl, dropR_token a, dropR_live a⟩⟩
 
-theorem refRevoke_rewrites (now : Int) (p : ResProvider) (s : St) (tok hint cid : String) :
-    Rewrites s (refRevoke now p { store := s } tok hint cid).1.store := by
+theorem refRevoke_rewrites (now : Int) (p : ResProvider) (e : Env) (s : St) (tok cid : String) :
+    Rewrites s (refRevoke now p (worldOf e s) tok cid).1.store := by
   unfold refRevoke
   split
   · exact Rewrites.refl s
   · rename_i t sub _
-    exact revokeToken_rewrites s t sub cid
+    exact revokeToken_rewrites s e.issuer t sub cid
 
 theorem revoke_rewrites (rt : Router) (atp : ResATProvider) (e : Env) (s : St) (c : Option String) (hint tok : String) :
     Rewrites s (revoke rt atp e s c hint tok).1 := by
@@ -537,15 +585,15 @@ theorem revoke_rewrites (rt : Router) (atp : ResATProvider) (e : Env) (s : St) (
   | none => exact Rewrites.refl s
   | some cid =>
     simp only []
-    have := refRevoke_rewrites e.now (provider atp e s) s tok hint cid
-    cases hr : refRevoke e.now (provider atp e s) { store := s } tok hint cid with
+    have := refRevoke_rewrites e.now (provider atp e s) e s tok cid
+    cases hr : refRevoke e.now (provider atp e s) (worldOf e s) tok cid with
     | mk w x => rw [hr] at this; cases x <;> exact this
 
-theorem terminate_rewrites (s : St) (sub cl : String) : Rewrites s (s.TerminateSession sub cl) :=
+theorem terminate_rewrites (s : St) (i sub cl : String) : Rewrites s (s.TerminateSession i sub cl) :=
   ⟨⟨_, rfl, fun t => by split <;> rfl, fun t h => by split <;> simp_all [Tok.live]⟩,
    ⟨_, rfl, fun r => by split <;> rfl, fun r h => by split <;> simp_all [RTok.live]⟩⟩
 
-theorem rotate_rewrites (s : St) (tok : String) : Rewrites s (s.rotate tok) := by
+theorem rotate_rewrites (s : St) (i tok : String) : Rewrites s (s.rotate i tok) := by
   unfold St.rotate
   split
   · exact Rewrites.refl s
@@ -559,11 +607,11 @@ theorem dead_step (atp : ResATProvider) (s : St) (op : Op) (x : Ref) (h : Dead s
   | introspect rt e c tok => exact ⟨h, hk⟩
   | exchange e a tok => exact ⟨h, hk⟩
   | revoke rt e c hint tok => exact (revoke_rewrites rt atp e s c hint tok).dead x h hk
-  | endSession sub cl => exact (terminate_rewrites s sub cl).dead x h hk
-  | refresh tok =>
+  | endSession i sub cl => exact (terminate_rewrites s i sub cl).dead x h hk
+  | refresh i tok =>
     simp only [step]
     split
-    · exact (rotate_rewrites s tok).dead x h hk
+    · exact (rotate_rewrites s i tok).dead x h hk
     · exact ⟨h, hk⟩
   | expire y =>
     cases y with
@@ -628,44 +676,35 @@ theorem revocation_sticks (atp : ResATProvider) (ops : List Op) (s : St) (x : Re
 
 /-! ### (3) revocation: by the owner (every hint), by a foreign client, of unknown strings -/
 
-theorem getRefreshTokenInfo_none {s : St} {cid tok : String} (h : s.lookupR tok = none) :
-    (ResWorld.GetRefreshTokenInfo { store := s } cid tok) = .error "ErrInvalidRefreshToken" := by
-  simp [ResWorld.GetRefreshTokenInfo, St.GetRefreshTokenInfo, h]
+theorem getRefreshTokenInfo_none {e : Env} {s : St} {cid tok : String} (h : s.lookupR e.issuer tok = none) :
+    (worldOf e s).GetRefreshTokenInfo cid tok = .error "ErrInvalidRefreshToken" := by
+  simp [worldOf, ResWorld.GetRefreshTokenInfo, St.GetRefreshTokenInfo, h]
 
-theorem getRefreshTokenInfo_some {s : St} {cid tok : String} {r : RTok} (h : s.lookupR tok = some r) :
-    (ResWorld.GetRefreshTokenInfo { store := s } cid tok) = .ok (r.subject, tok) := by
-  simp [ResWorld.GetRefreshTokenInfo, St.GetRefreshTokenInfo, h, (lookupR_some h).2.1]
+theorem getRefreshTokenInfo_some {e : Env} {s : St} {cid tok : String} {r : RTok} (h : s.lookupR e.issuer tok = some r) :
+    (worldOf e s).GetRefreshTokenInfo cid tok = .ok (r.subject, tok) := by
+  simp [worldOf, ResWorld.GetRefreshTokenInfo, St.GetRefreshTokenInfo, h, (lookupR_some h).2.1]
 
-/-- an access-token string (that is not also a stored refresh-token string) is revoked by its id - whatever the hint says -/
-theorem revokeTarget_at {now : Int} {p : ResProvider} {s : St} {tok hint cid id sub : String}
-    (hr : resolve now p tok = some (id, sub)) (hnr : hint = "access_token" ∨ s.lookupR tok = none) :
-    revokeTarget now p { store := s } tok hint cid = .ok (id, sub) := by
+/-- a string the storage does not know as a refresh token is revoked as the access token it resolves to -/
+theorem revokeTarget_at {now : Int} {p : ResProvider} {e : Env} {s : St} {tok cid id sub : String}
+    (hr : resolve now p tok = some (id, sub)) (hnr : s.lookupR e.issuer tok = none) :
+    revokeTarget now p (worldOf e s) tok cid = .ok (id, sub) := by
   unfold revokeTarget asAccess
   rw [hr]
-  by_cases hh : (hint != "access_token") = true
-  · rcases hnr with rfl | hnr
-    · simp at hh
-    · simp [hh, getRefreshTokenInfo_none hnr, Hand.resErrorsIs]
-  · simp [hh]
+  simp [getRefreshTokenInfo_none hnr, Hand.resErrorsIs]
 
-/-- a stored refresh-token string is revoked as such, under every hint, UNLESS the hint says access_token and the string is
-    mistaken for an opaque / JWT access token (see `revoke_rt_wrong_hint_witness`) -/
-theorem revokeTarget_rt {now : Int} {p : ResProvider} {s : St} {tok hint cid : String} {r : RTok}
-    (hl : s.lookupR tok = some r) (hh : hint ≠ "access_token" ∨ resolve now p tok = none) :
-    ∃ sub, revokeTarget now p { store := s } tok hint cid = .ok (tok, sub) := by
-  unfold revokeTarget asAccess
-  by_cases h : (hint != "access_token") = true
-  · exact ⟨r.subject, by simp [h, getRefreshTokenInfo_some hl]⟩
-  · rcases hh with hh | hh
-    · simp at h; exact absurd h hh
-    · exact ⟨"", by simp [h, hh]⟩
+/-- a string the storage knows as a refresh token is revoked as such - whatever the hint says and whatever else it may look like -/
+theorem revokeTarget_rt {now : Int} {p : ResProvider} {e : Env} {s : St} {tok cid : String} {r : RTok}
+    (hl : s.lookupR e.issuer tok = some r) :
+    revokeTarget now p (worldOf e s) tok cid = .ok (tok, r.subject) := by
+  unfold revokeTarget
+  simp [getRefreshTokenInfo_some hl]
 
-theorem revokeToken_at {s : St} {id sub cid : String} {t : Tok} (hl : s.lookup id = some t) (hown : t.client = cid) :
-    s.RevokeToken id sub cid = ({ s with toks := s.toks.map (killTok id) }, .ok ()) := by
+theorem revokeToken_at {s : St} {iss id sub cid : String} {t : Tok} (hl : s.lookup iss id = some t) (hown : t.client = cid) :
+    s.RevokeToken iss id sub cid = ({ s with toks := s.toks.map (killTok id) }, .ok ()) := by
   simp [St.RevokeToken, hl, hown]
 
-theorem revokeToken_rt {s : St} {tok sub cid : String} {r : RTok} (hn : s.lookup tok = none) (hl : s.lookupR tok = some r) (hown : r.client = cid) :
-    s.RevokeToken tok sub cid = ({ toks := s.toks.map (killTok r.access), rtoks := s.rtoks.map (dropR tok) }, .ok ()) := by
+theorem revokeToken_rt {s : St} {iss tok sub cid : String} {r : RTok} (hn : s.lookup iss tok = none) (hl : s.lookupR iss tok = some r) (hown : r.client = cid) :
+    s.RevokeToken iss tok sub cid = ({ s with toks := s.toks.map (killTok r.access), rtoks := s.rtoks.map (dropR tok) }, .ok ()) := by
   simp [St.RevokeToken, hn, hl, hown]
 
 theorem killTok_dead (toks : List Tok) (id : String) : ∀ x, x ∈ toks.map (killTok id) → x.id = id → x.live = false := by
@@ -683,58 +722,58 @@ theorem dropR_dead (rtoks : List RTok) (tok : String) : ∀ x, x ∈ rtoks.map (
   split <;> simp_all [RTok.live]
 
 /-- C08 (3a): revocation of an ACCESS token by the owning client answers 200 and kills the token - on both routers, for EVERY
-    token_type_hint (absent, right, wrong, garbage) and every oracle behaviour -/
+    token_type_hint (absent, right, wrong, garbage) and every oracle behaviour.  (`hnr`: the string is not a stored refresh token.) -/
 theorem revoke_kills_at (rt : Router) (atp : ResATProvider) (e : Env) (s : St) (cid hint tok id sub : String) (t : Tok)
-    (hr : resolve e.now (provider atp e s) tok = some (id, sub)) (hl : s.lookup id = some t) (hown : t.client = cid)
-    (hnr : hint = "access_token" ∨ s.lookupR tok = none) :
+    (hr : resolve e.now (provider atp e s) tok = some (id, sub)) (hl : s.lookup e.issuer id = some t) (hown : t.client = cid)
+    (hnr : s.lookupR e.issuer tok = none) :
     (revoke rt atp e s (some cid) hint tok).2 = .ok ∧ Dead (revoke rt atp e s (some cid) hint tok).1 (.at id) := by
   rw [revoke_spec]
-  simp only [refRevoke, revokeTarget_at hr hnr, ResWorld.RevokeToken, revokeToken_at hl hown]
+  simp only [refRevoke, revokeTarget_at hr hnr]
+  simp only [ResWorld.RevokeToken, worldOf, revokeToken_at hl hown]
   exact ⟨trivial, killTok_dead s.toks id⟩
 
 /-- C08 (3b): revocation of a REFRESH token by the owning client answers 200 and kills the refresh token AND the access token
-    issued with it - on both routers, for every hint other than `access_token`, and for `access_token` too as long as the string is
-    not mistaken for an access token.  (`hn`: refresh-token strings and access-token ids are different name spaces.) -/
-theorem revoke_kills_rt_partial (rt : Router) (atp : ResATProvider) (e : Env) (s : St) (cid hint tok : String) (r : RTok)
-    (hl : s.lookupR tok = some r) (hown : r.client = cid) (hn : s.lookup tok = none)
-    (hh : hint ≠ "access_token" ∨ resolve e.now (provider atp e s) tok = none) :
+    issued with it - on both routers, for EVERY token_type_hint (in particular the wrong one, `access_token`) and every oracle
+    behaviour: whatever the string may decrypt to.  (`hn`: refresh-token strings and access-token ids are different name spaces.) -/
+theorem revoke_kills_rt (rt : Router) (atp : ResATProvider) (e : Env) (s : St) (cid hint tok : String) (r : RTok)
+    (hl : s.lookupR e.issuer tok = some r) (hown : r.client = cid) (hn : s.lookup e.issuer tok = none) :
     (revoke rt atp e s (some cid) hint tok).2 = .ok ∧ Dead (revoke rt atp e s (some cid) hint tok).1 (.rt tok) ∧
       Dead (revoke rt atp e s (some cid) hint tok).1 (.at r.access) := by
   rw [revoke_spec]
-  obtain ⟨sub, ht⟩ := revokeTarget_rt (cid := cid) hl hh
-  simp only [refRevoke, ht, ResWorld.RevokeToken, revokeToken_rt hn hl hown]
+  simp only [refRevoke, revokeTarget_rt (cid := cid) hl]
+  simp only [ResWorld.RevokeToken, worldOf, revokeToken_rt hn hl hown]
   exact ⟨trivial, dropR_dead s.rtoks tok, killTok_dead s.toks r.access⟩
 
 /-- revocation of an access token by another client is refused and changes nothing -/
 theorem foreign_revoke_refused_at (rt : Router) (atp : ResATProvider) (e : Env) (s : St) (cid hint tok id sub : String) (t : Tok)
-    (hr : resolve e.now (provider atp e s) tok = some (id, sub)) (hl : s.lookup id = some t) (hforeign : t.client ≠ cid)
-    (hnr : hint = "access_token" ∨ s.lookupR tok = none) :
+    (hr : resolve e.now (provider atp e s) tok = some (id, sub)) (hl : s.lookup e.issuer id = some t) (hforeign : t.client ≠ cid)
+    (hnr : s.lookupR e.issuer tok = none) :
     revoke rt atp e s (some cid) hint tok = (s, .refused) := by
   rw [revoke_spec]
-  simp [refRevoke, revokeTarget_at hr hnr, ResWorld.RevokeToken, St.RevokeToken, hl, hforeign]
+  simp only [refRevoke, revokeTarget_at hr hnr]
+  simp [ResWorld.RevokeToken, worldOf, St.RevokeToken, hl, hforeign]
 
-/-- revocation of a refresh token by another client is refused and changes nothing -/
+/-- revocation of a refresh token by another client is refused and changes nothing - under every hint -/
 theorem foreign_revoke_refused_rt (rt : Router) (atp : ResATProvider) (e : Env) (s : St) (cid hint tok : String) (r : RTok)
-    (hl : s.lookupR tok = some r) (hforeign : r.client ≠ cid) (hn : s.lookup tok = none)
-    (hh : hint ≠ "access_token" ∨ resolve e.now (provider atp e s) tok = none) :
+    (hl : s.lookupR e.issuer tok = some r) (hforeign : r.client ≠ cid) (hn : s.lookup e.issuer tok = none) :
     revoke rt atp e s (some cid) hint tok = (s, .refused) := by
   rw [revoke_spec]
-  obtain ⟨sub, ht⟩ := revokeTarget_rt (cid := cid) hl hh
-  simp [refRevoke, ht, ResWorld.RevokeToken, St.RevokeToken, hn, hl, hforeign]
+  simp only [refRevoke, revokeTarget_rt (cid := cid) hl]
+  simp [ResWorld.RevokeToken, worldOf, St.RevokeToken, hn, hl, hforeign]
 
 /-- unknown or garbage strings (neither a stored refresh token, nor resolving to a stored access-token id, nor a stored name
-    themselves) are answered 200 without effect -/
+    themselves - as seen under the issuer of the request) are answered 200 without effect -/
 theorem unknown_revoke_ok (rt : Router) (atp : ResATProvider) (e : Env) (s : St) (cid hint tok : String)
-    (hnr : s.lookupR tok = none)
-    (hna : s.lookup (asAccess e.now (provider atp e s) tok).1 = none) (hnb : s.lookupR (asAccess e.now (provider atp e s) tok).1 = none) :
+    (hnr : s.lookupR e.issuer tok = none)
+    (hna : s.lookup e.issuer (asAccess e.now (provider atp e s) tok).1 = none)
+    (hnb : s.lookupR e.issuer (asAccess e.now (provider atp e s) tok).1 = none) :
     revoke rt atp e s (some cid) hint tok = (s, .ok) := by
   rw [revoke_spec]
-  have ht : revokeTarget e.now (provider atp e s) { store := s } tok hint cid = .ok (asAccess e.now (provider atp e s) tok) := by
+  have ht : revokeTarget e.now (provider atp e s) (worldOf e s) tok cid = .ok (asAccess e.now (provider atp e s) tok) := by
     unfold revokeTarget
-    by_cases hh : (hint != "access_token") = true
-    · simp [hh, getRefreshTokenInfo_none hnr, Hand.resErrorsIs]
-    · simp [hh]
-  simp [refRevoke, ht, ResWorld.RevokeToken, St.RevokeToken, hna, hnb]
+    simp [getRefreshTokenInfo_none hnr, Hand.resErrorsIs]
+  simp only [refRevoke, ht]
+  simp [ResWorld.RevokeToken, worldOf, St.RevokeToken, hna, hnb]
 
 /-- C08 (4): an introspection answer is `unauthorized`, or the constant zero-valued inactive answer (it carries no field of any
     token), or the fields of a LIVE token whose audience contains the authenticated caller -/
@@ -749,7 +788,7 @@ theorem inactive_discloses_nothing (rt : Router) (atp : ResATProvider) (e : Env)
     right
     rcases refIntrospect_cases e.now (provider atp e s) tok cid with h0 | ⟨id, sub, t, _, ht, ha, h1⟩
     · left; simp [h0]
-    · right; exact ⟨cid, t, rfl, (liveTok_some ht).1, (liveTok_some ht).2.2, ha, by simp [h1]⟩
+    · right; exact ⟨cid, t, rfl, (liveTok_some ht).1, (liveTok_some ht).2.2.1, ha, by simp [h1]⟩
 
 /-! ### (5) a JWT access token is honoured only at the issuer named in it -/
 
@@ -846,9 +885,10 @@ theorem c08_issuer_bound (atp : ResATProvider) (s : St) (op : Op) (x : Ref) (e :
   rw [provider_verifier] at h2 h3 h4
   exact ⟨pl, c0, c, h1, h2, h3, h4⟩
 
-/-- … whereas an OPAQUE token carries no issuer: whether it is honoured does not depend on the issuer the request is addressed to
-    (finding F-C08c: on a multi-issuer provider the binding is left to the storage) -/
-theorem opaque_not_issuer_bound (atp : ResATProvider) (s : St) (e : Env) (tok pl : String) (iss : String)
+/-- Remark (not a property clause): the LIBRARY itself does not look at the issuer when it reads an opaque token - what a string that
+    decrypts resolves to is the same under every issuer.  For stored tokens the issuer reaches the storage through the context of every
+    call, and keeping the tenants of a multi-issuer provider apart is the storage's part of the contract (`c08_issuer_bound_stored`). -/
+theorem resolve_opaque_ignores_issuer (atp : ResATProvider) (s : St) (e : Env) (tok pl : String) (iss : String)
     (hd : e.decrypt tok = .ok pl) :
     resolve e.now (provider atp e s) tok = resolve e.now (provider atp { e with issuer := iss } s) tok := by
   simp [resolve, provider, hd]
@@ -996,7 +1036,7 @@ def exEnvB : Env := { exEnvA with issuer := "https://b.example" }
 example : (step {} exSt (.userinfo .provider exEnv "opaque1")).2 = some (.at "at1") := by decide
 example : (step {} exSt (.introspect .legacy exEnv (some "web") "opaque1")).2 = some (.at "at1") := by decide
 example : (step {} exSt (.introspect .provider exEnv (some "other") "opaque1")).2 = none := by decide
-example : (run {} exSt [.exchange exEnv true "rt1", .refresh "rt1", .refresh "rt1"]).2 = [some (.rt "rt1"), some (.rt "rt1"), none] := by decide
+example : (run {} exSt [.exchange exEnv true "rt1", .refresh "" "rt1", .refresh "" "rt1"]).2 = [some (.rt "rt1"), some (.rt "rt1"), none] := by decide
 -- a JWT access token of issuer A: honoured at A, refused at B (both routers, all three endpoints), refused at A once expired
 example : (step exATP exSt (.userinfo .provider exEnvA "jwtA")).2 = some (.at "at1") := by decide
 example : (step exATP exSt (.userinfo .provider exEnvB "jwtA")).2 = none := by decide
@@ -1007,24 +1047,34 @@ example : (step exATP exSt (.userinfo .legacy { exEnvA with now := 3000 * Go.sec
 -- revocation by the owner: access token (wrong hint), refresh token (no hint / wrong hint / garbage hint): dead everywhere afterwards
 example : (run {} exSt [.revoke .provider exEnv (some "web") "refresh_token" "opaque1", .userinfo .provider exEnv "opaque1",
     .introspect .provider exEnv (some "web") "opaque1", .exchange exEnv false "opaque1"]).2 = [none, none, none, none] := by decide
-example : (run {} exSt [.revoke .legacy exEnv (some "web") "access_token" "rt1", .refresh "rt1", .exchange exEnv true "rt1",
+example : (run {} exSt [.revoke .legacy exEnv (some "web") "access_token" "rt1", .refresh "" "rt1", .exchange exEnv true "rt1",
     .userinfo .provider exEnv "opaque1"]).2 = [none, none, none, none] := by decide
-example : (run {} exSt [.revoke .provider exEnv (some "web") "bogus" "rt1", .refresh "rt1", .userinfo .legacy exEnv "opaque1"]).2 = [none, none, none] := by decide
-example : (run {} exSt [.revoke .provider exEnv (some "evil") "" "rt1", .refresh "rt1"]).2 = [none, some (.rt "rt1")] := by decide
-example : (run {} exSt [.endSession "u1" "web", .refresh "rt1", .userinfo .provider exEnv "opaque1"]).2 = [none, none, none] := by decide
+example : (run {} exSt [.revoke .provider exEnv (some "web") "bogus" "rt1", .refresh "" "rt1", .userinfo .legacy exEnv "opaque1"]).2 = [none, none, none] := by decide
+example : (run {} exSt [.revoke .provider exEnv (some "evil") "" "rt1", .refresh "" "rt1"]).2 = [none, some (.rt "rt1")] := by decide
+example : (run {} exSt [.endSession "" "u1" "web", .refresh "" "rt1", .userinfo .provider exEnv "opaque1"]).2 = [none, none, none] := by decide
 
-/-- the full-strength statement "revocation of a refresh token by its owner kills it under EVERY hint" is FALSE of the code as it
-    is: with `token_type_hint=access_token` the refresh-token lookup is skipped, and a refresh-token string that happens to decrypt
-    (any base64url string of ≥ 22 characters does under AES-CFB) to a plaintext with exactly one ':' is taken for an opaque access
-    token - the storage is asked to revoke that plaintext's first half, answers "nothing to do", the endpoint answers 200 and the
-    refresh token stays live (finding F-C08b) -/
+-- the hint plays no part: a refresh token whose string happens to "decrypt" to `x:y` is revoked as the refresh token it is, under the
+-- hint access_token as under any other (this was finding F-C08b before the repair)
 def exEnvCollide : Env := { decrypt := fun _ => .ok "x:y" }
-theorem revoke_rt_wrong_hint_witness :
-    exSt.lookupR "rt1" = some exRT ∧ exRT.client = "web" ∧ exSt.lookup "rt1" = none ∧
-    (revoke .provider {} exEnvCollide exSt (some "web") "access_token" "rt1").2 = .ok ∧
-    (run {} exSt [.revoke .provider exEnvCollide (some "web") "access_token" "rt1", .refresh "rt1"]).2 = [none, some (.rt "rt1")] ∧
-    (run {} exSt [.revoke .provider exEnvCollide (some "web") "" "rt1", .refresh "rt1"]).2 = [none, none] := by decide
+example : (run {} exSt [.revoke .provider exEnvCollide (some "web") "access_token" "rt1", .refresh "" "rt1", .exchange exEnvCollide true "rt1"]).2
+    = [none, none, none] := by decide
+example : (run {} exSt [.revoke .legacy exEnvCollide (some "web") "access_token" "rt1", .refresh "" "rt1"]).2 = [none, none] := by decide
+example : (run {} exSt [.revoke .provider exEnvCollide (some "evil") "access_token" "rt1", .refresh "" "rt1"]).2 = [none, some (.rt "rt1")] := by decide
+example : (revoke .provider {} exEnvCollide exSt (some "evil") "access_token" "rt1").2 = .refused := by decide
 
+-- a partitioning storage (multi-issuer provider): the OPAQUE access token and the refresh token created under issuer A are honoured
+-- at A and refused at B - userinfo, introspection, exchange, the refresh grant - and a revocation or logout at B leaves them alone
+def exStP : St := { toks := [{ exTok with issuer := "https://a.example" }], rtoks := [{ exRT with issuer := "https://a.example" }], partitioned := true }
+def exOpA : Env := { exEnv with issuer := "https://a.example" }
+def exOpB : Env := { exEnv with issuer := "https://b.example" }
+example : (run {} exStP [.userinfo .provider exOpA "opaque1", .introspect .legacy exOpA (some "web") "opaque1", .exchange exOpA false "opaque1",
+    .exchange exOpA true "rt1"]).2 = [some (.at "at1"), some (.at "at1"), some (.at "at1"), some (.rt "rt1")] := by decide
+example : (run {} exStP [.userinfo .provider exOpB "opaque1", .introspect .legacy exOpB (some "web") "opaque1", .exchange exOpB false "opaque1",
+    .exchange exOpB true "rt1", .refresh "https://b.example" "rt1"]).2 = [none, none, none, none, none] := by decide
+example : (run {} exStP [.revoke .provider exOpB (some "web") "" "rt1", .endSession "https://b.example" "u1" "web", .refresh "https://a.example" "rt1"]).2
+    = [none, none, some (.rt "rt1")] := by decide
+example : (run {} exStP [.revoke .legacy exOpA (some "web") "access_token" "rt1", .refresh "https://a.example" "rt1", .userinfo .provider exOpA "opaque1"]).2
+    = [none, none, none] := by decide
 
 -- the request parsers: Basic auth with the registered secret is let through, a wrong secret and a merely identified caller are not
 def exClients : Store := { clients := [{ id := "web", secret := "s3cret", auth := "client_secret_basic" }, { id := "pub", auth := "none" }] }
